@@ -300,8 +300,9 @@ class SSeq:
         return make(self.kind, items)
 
     def splitlines(self, keepends=False):
-        if self.kind == STR:
-            raise Unsupported('str.splitlines on symbolic text')
+        # str.splitlines knows more line boundaries than bytes.splitlines
+        extra = (11, 12, 0x1c, 0x1d, 0x1e, 0x85, 0x2028, 0x2029) \
+            if self.kind == STR else ()
         out = []
         cur_line = []
         items = self.items
@@ -309,7 +310,16 @@ class SSeq:
         k = 0
         while k < n:
             c = items[k]
-            if c == 13:
+            is_extra = False
+            for e in extra:
+                if c == e:
+                    is_extra = True
+                    break
+            if is_extra:
+                out.append(self._wrap_imm(cur_line + ([c] if keepends
+                                                      else [])))
+                cur_line = []
+            elif c == 13:
                 end = [c]
                 if k + 1 < n and items[k + 1] == 10:
                     end.append(items[k + 1])
